@@ -429,7 +429,12 @@ class Thread(BaseThread):
 
         with self.child_locker:
             children = list(self.children)
-        join_all_threads(children, till=till)
+        children_cause = None
+        try:
+            join_all_threads(children, till=till)
+        except Exception as cause:
+            # A FAILED CHILD MUST NOT MAKE US SKIP WAITING FOR THIS THREAD
+            children_cause = cause
 
         DEBUG and logger.note(
             "{parent.name} ({parent.ident}) waiting on thread {child}", parent=current_thread(), child=self.name,
@@ -447,6 +452,8 @@ class Thread(BaseThread):
         except Exception as cause:
             logger.warning("parents of children must have remove_child() method", cause=cause)
 
+        if children_cause is not None:
+            raise children_cause
         if self.end_of_thread.exception:
             logger.error(
                 "Thread {name|quote} did not end well", name=self.name, cause=self.end_of_thread.exception,
